@@ -15,6 +15,8 @@ CHECK = dict(
             dict(name="agerapid", run="^TestVerifC04AgeRapid$", quick=20000, thorough=400000, shards_thorough=4),
             dict(name="history", run="^TestVerifC04History$", quick=3000, thorough=480000, shards_thorough=12),
             dict(name="realtime", run="^TestVerifC04RealTime$", quick=4, thorough=240, shards_thorough=12),
+            dict(name="concurrent", run="^TestVerifC04Concurrent$", quick=300, thorough=20000, shards_thorough=4),
+            dict(name="concurrent-race", run="^TestVerifC04Concurrent$", quick=60, thorough=2000, shards_thorough=2, race=True),
         ]),
         dict(name="ecscache", dir="internal/ecscache", src="C04/ecscache", runs=[
             dict(name="agegrid", run="^TestVerifC04EcsAgeGrid$", quick=0, thorough=0),
